@@ -31,12 +31,13 @@ _THM = ["tree_jac_is_fderiv", "tree_jac_directional", "assemble_jac_is_fderiv", 
         "pow_int_sound", "matmul_sound", "maximum_sound", "exp_sound", "log_sound", "sin_sound", "cos_sound", "tan_sound",
         "sinh_sound", "cosh_sound", "tanh_sound", "arctan_sound", "abs_sound", "l2_norm_sound", "characteristic_sound",
         "heaviside_sound", "pow_sound", "l2_norm_rows_sound", "l2_norm_dim_one_is_abs", "arcsin_sound", "arccos_sound", "arcsinh_sound",
-        "arccosh_sound", "arctanh_sound", "safe_power_sound", "heaviside_smooth_sound"]
+        "arccosh_sound", "arctanh_sound", "safe_power_sound", "heaviside_smooth_sound", "vocab_tree_smooth",
+        "vocab_assemble_jac_is_derivative", "newton_step_exact_linearization", "assemble_subsystem_jac_is_derivative"]
 THEOREMS = ["PorepyVerif.C03." + t for t in _THM]
 LEAN_MODULES = ["PorepyVerif.C03.Props"]
 AUDIT = "PorepyVerif/C03/Audit.lean"
 DRIVER = "PorepyVerif/C03/Driver.lean"
-N = {"quick": 18, "thorough": 180}
+N = {"quick": 26, "thorough": 200}
 
 # ------------------------------------------------------------------------------------------------ configurations
 FAMILIES = ["spf", "meb", "mom", "poro", "thm"]
@@ -57,7 +58,12 @@ QUICK_PLAN = [
     ("thm", 0, "simplex", 2, "random"),
     ("cm", 2, "cartesian", 2, "closed_stick"), ("cm", 2, "cartesian", 2, "closed_slip"),
     ("lib", 0, "cartesian", 2, "random"), ("lib", 0, "cartesian", 2, "random"),
+    # cheap extras (tiny systems, models already built or built in < 1.5 s)
+    ("cm", 2, "cartesian", 2, "open"), ("cm", 2, "cartesian", 2, "mixed"), ("mom", 1, "cartesian", 2, "open"),
+    ("mom", 1, "cartesian", 2, "closed_stick"), ("spf", 2, "cartesian", 2, "random"), ("lib", 0, "cartesian", 2, "random"),
+    ("meb", 1, "simplex", 2, "random"), ("mom", 1, "cartesian", 2, "mixed"),
 ]
+SUBSYSTEMS = ["none", "eqs", "vars", "both", "grid"]
 QUICK_CONFIGS = sorted({c[:4] for c in QUICK_PLAN})
 ALL_CONFIGS = [(f, k, g, 2) for f in FAMILIES for k in (0, 1, 2) for g in ("cartesian", "simplex")] + [
     ("mom", 1, "cartesian", 3), ("mom", 2, "cartesian", 3), ("thm", 1, "cartesian", 3), ("spf", 2, "cartesian", 3), ("poro", 1, "simplex", 3),
@@ -308,6 +314,12 @@ def _draw(model, case, attempt):
     x = base + case["amp"] * np.array([r.uniform(-1, 1) for _ in range(n)])
     xprev = case["prev_amp"] * np.array([r.uniform(-1, 1) for _ in range(n)])
     x = _apply_stratum(model, x, case.get("contact", "random"), r)
+    return x, xprev, _draw_dir(model, case)
+
+
+def _draw_dir(model, case):
+    es = model.equation_system
+    n = es.num_dofs()
     rd = random.Random(f"C03-dir-{case['dir_seed']}")
     kind = case["dir_kind"]
     if kind == "dense" or n == 0:
@@ -321,7 +333,7 @@ def _draw(model, case, attempt):
     else:  # unit
         d = np.zeros(n)
         d[rd.randrange(n)] = rd.choice([1.0, -1.0])
-    return x, xprev, d
+    return d
 
 
 def _contact_ops(model):
@@ -491,6 +503,78 @@ def _prepare_uncached(case):
     return last + (False,)
 
 
+# ------------------------------------------------------------------------------------------------ sub-systems
+def _subsystem(model, case):
+    """(equations argument, variables argument, selected global rows, selected global columns) of the sub-system
+    stratum of a case, or None: `eqs` = a subset of the equations (requested in reverse order: the result must come in
+    storage order), `vars` = a subset of the variables, `both`, `grid` = one equation restricted to some of its grids.
+    Rows / columns are computed here from the block structure, not with the code under test."""
+    kind = case.get("subsystem", "none")
+    es = model.equation_system
+    names = list(es.equations)
+    if kind == "none" or not names:
+        return None
+    r = random.Random(f"C03-sub-{case['node_seed']}")
+    A_rows, start = {}, 0
+    for name in names:  # rows of the full system: equations in storage order, each block grid by grid
+        comp = es._equation_image_space_composition[name]
+        size = sum(len(ix) for ix in comp.values())
+        A_rows[name] = (start, comp)
+        start += size
+    eq_arg, rows = None, list(range(start))
+    var_arg, cols = None, list(range(es.num_dofs()))
+    if kind in ("eqs", "both"):
+        pick = [nm for nm in names if r.random() < 0.5] or [names[r.randrange(len(names))]]
+        eq_arg = pick[::-1]
+        rows = [A_rows[nm][0] + int(q) for nm in names if nm in pick for ix in A_rows[nm][1].values() for q in ix]
+    if kind in ("vars", "both"):
+        vnames = sorted({v.name for v in es.variables})
+        pickv = [nm for nm in vnames if r.random() < 0.5] or [vnames[r.randrange(len(vnames))]]
+        var_arg = pickv
+        cols = sorted(int(q) for v in es.variables if v.name in pickv for q in es.dofs_of([v]))
+    if kind == "grid":
+        cands = [nm for nm in names if len(A_rows[nm][1]) >= 1]
+        nm = cands[r.randrange(len(cands))]
+        grids = list(A_rows[nm][1])
+        keep = [g for g in grids if r.random() < 0.6] or [grids[r.randrange(len(grids))]]
+        eq_arg = {nm: keep}
+        rows = [A_rows[nm][0] + int(q) for g in grids if g in keep for q in A_rows[nm][1][g]]
+    return eq_arg, var_arg, rows, cols
+
+
+def _check_subsystem(model, case, x, A, b, tag):
+    sub = _subsystem(model, case)
+    if sub is None:
+        return None
+    es = model.equation_system
+    eq_arg, var_arg, rows, cols = sub
+    keep = dict(es.assembled_equation_indices)
+    try:
+        As, bs = es.assemble(equations=eq_arg, variables=var_arg, state=x)
+        rs = es.assemble(evaluate_jacobian=False, equations=eq_arg, state=x)
+    finally:
+        es.assembled_equation_indices = keep
+    want = A.tocsr()[rows][:, cols]
+    fam = case["config"]["family"]
+    if As.shape != want.shape or np.asarray(bs).shape != (len(rows),):
+        return {"what": f"{tag}: assemble({case['subsystem']} sub-system) has shape {As.shape} / rhs {np.asarray(bs).shape}, the slice of the full "
+                        f"system has {want.shape}", "key": f"subsystem-shape:{fam}:{case['subsystem']}"}
+    dA = abs(As - want).max() if want.shape[0] * want.shape[1] else 0.0
+    db = np.max(np.abs(np.asarray(bs) - b[rows]), initial=0.0)
+    dr = np.max(np.abs(np.asarray(rs) - b[rows]), initial=0.0)
+    if max(dA, db, dr) > 1e-12 * (1 + abs(A).max()):
+        return {"what": f"{tag}: assemble(equations={_short(eq_arg)}, variables={var_arg}) is not the corresponding slice of the full system "
+                        f"(max |dJ|={dA:.3g}, |d rhs|={db:.3g}, |d residual-only|={dr:.3g}); state_seed={case['state_seed']}",
+                "key": f"subsystem-slice:{fam}:{case['subsystem']}"}
+    return None
+
+
+def _short(eq_arg):
+    if isinstance(eq_arg, dict):
+        return {k: [f"{type(g).__name__}{g.id}" for g in v] for k, v in eq_arg.items()}
+    return eq_arg
+
+
 # ------------------------------------------------------------------------------------------------ oracle
 def _res(es, x):
     return np.asarray(es.assemble(evaluate_jacobian=False, state=x), dtype=float)
@@ -533,6 +617,37 @@ def oracle(case):
                 "key": f"assemble-raises:{cfg['family']}:{type(e).__name__}"}
 
 
+def _check_direction(es, case, tag, cfg, x, d, A, attempt, q):
+    def D(h):  # derivative of the residual (= -b) along d, central difference
+        return -(_res(es, x + h * d) - _res(es, x - h * d)) / (2 * h)
+
+    D1, D2, D4 = D(H), D(H / 2), D(H / 4)
+    R1, R2 = (4 * D2 - D1) / 3, (4 * D4 - D2) / 3
+    Jd = np.asarray(A @ d).ravel()
+    S = np.asarray(abs(A) @ np.abs(d)).ravel() + np.abs(R1)
+    tol = RTOL * S + ATOL
+    if np.any(np.abs(R1 - R2) > 0.1 * tol):
+        # the finite differences do not agree among themselves: not a statement about the Jacobian
+        _STATS["fd_inconclusive"] += 1
+        return None
+    err = np.abs(Jd - R1)
+    _STATS["checks"] += 1
+    _STATS["rows"] += int(err.size)
+    if err.size:
+        _STATS["max_rel_err"] = max(_STATS["max_rel_err"], float(np.max(err / (S + ATOL / RTOL))))
+    bad = np.nonzero(err > tol)[0]
+    if bad.size:
+        i = int(bad[np.argmax(err[bad] / tol[bad])])
+        eq, loc = _row_owner(es, i)
+        cols = [v.name for v in es.variables if np.any(d[es.dofs_of([v])] != 0)]
+        return {"what": f"{tag}: J*delta = {Jd[i]:.12g} but d/de residual = {R1[i]:.12g} (Richardson h={H}, |diff|={err[i]:.3g}, "
+                        f"allowed {tol[i]:.3g}) in row {i} = {eq}[{loc}]; {bad.size} of {err.size} rows differ; "
+                        f"state_seed={case['state_seed']} attempt={attempt} amp={case['amp']} contact={case.get('contact', 'random')} "
+                        f"dir#{q}={case['dir_kind']}/{case['dir_seed']} (direction touches {sorted(set(cols))[:6]})",
+                "key": f"jacobian-vs-fd:{cfg['family']}:{eq}"}
+    return None
+
+
 def _oracle(case):
     """J(x) d == d/de residual(x + e d) at e = 0 (discretisation matrices fixed),
     J, -residual from `assemble(state=x)`, the residual from `assemble(evaluate_jacobian=False, state=...)`."""
@@ -556,34 +671,17 @@ def _oracle(case):
         return {"what": f"{tag}: residual of assemble(evaluate_jacobian=False) differs from the one returned with the Jacobian "
                         f"(row {i} = {eq}[{loc}]) at state_seed={case['state_seed']}", "key": f"residual-mismatch:{cfg['family']}:{eq}"}
 
-    def D(h):  # derivative of the residual (= -b) along d, central difference
-        return -(_res(es, x + h * d) - _res(es, x - h * d)) / (2 * h)
-
-    D1, D2, D4 = D(H), D(H / 2), D(H / 4)
-    R1, R2 = (4 * D2 - D1) / 3, (4 * D4 - D2) / 3
-    Jd = np.asarray(A @ d).ravel()
-    S = np.asarray(abs(A) @ np.abs(d)).ravel() + np.abs(R1)
-    tol = RTOL * S + ATOL
-    if np.any(np.abs(R1 - R2) > 0.1 * tol):
-        # the finite differences do not agree among themselves: not a statement about the Jacobian
-        _STATS["fd_inconclusive"] += 1
-        return None
-    err = np.abs(Jd - R1)
-    _STATS["checks"] += 1
-    _STATS["rows"] += int(err.size)
-    if err.size:
-        _STATS["max_rel_err"] = max(_STATS["max_rel_err"], float(np.max(err / (S + ATOL / RTOL))))
-    bad = np.nonzero(err > tol)[0]
-    if bad.size:
-        i = int(bad[np.argmax(err[bad] / tol[bad])])
-        eq, loc = _row_owner(es, i)
-        # which variable blocks of the direction are involved in that row
-        cols = [v.name for v in es.variables if np.any(d[es.dofs_of([v])] != 0)]
-        return {"what": f"{tag}: J*delta = {Jd[i]:.12g} but d/de residual = {R1[i]:.12g} (Richardson h={H}, |diff|={err[i]:.3g}, "
-                        f"allowed {tol[i]:.3g}) in row {i} = {eq}[{loc}]; {bad.size} of {err.size} rows differ; "
-                        f"state_seed={case['state_seed']} attempt={attempt} amp={case['amp']} dir={case['dir_kind']}/{case['dir_seed']} "
-                        f"(direction touches {sorted(set(cols))[:6]})",
-                "key": f"jacobian-vs-fd:{cfg['family']}:{eq}"}
+    sub_fail = _check_subsystem(model, case, x, A, b, tag)
+    if sub_fail is not None:
+        return sub_fail
+    for q in range(int(case.get("n_dirs", 1))):
+        if q > 0:  # further directions at the same state: cheap (the Jacobian is already there); must pass the margin test too
+            d = _draw_dir(model, dict(case, dir_seed=case["dir_seed"] + q, dir_kind=("dense", "block", "unit")[(q + case["dir_seed"]) % 3]))
+            if not _smooth_enough(model, _kink_nodes(rec, nodes), x, d):
+                continue
+        fail = _check_direction(es, case, tag, cfg, x, d, A, attempt, q)
+        if fail is not None:
+            return fail
     # `state=x` must mean the same as storing x as the current iterate
     if case.get("check_state_arg"):
         old = es.get_variable_values(iterate_index=0).copy()
@@ -613,6 +711,8 @@ def gen_case(rng, tier):
     return {
         "config": {"family": fam, "fractures": nf, "grid": grid, "dim": dim},
         "contact": stratum,
+        "subsystem": SUBSYSTEMS[(k + k // len(SUBSYSTEMS)) % len(SUBSYSTEMS)],
+        "n_dirs": 2,
         "state_seed": rng.randrange(10**9),
         "amp": rng.choice([0.5, 0.5, 0.2, 1.0]),
         "prev_amp": rng.choice([0.0, 0.3, 0.3]),
@@ -767,6 +867,18 @@ def _impl(case):
     if key not in _IMPL_CACHE:
         model, x, d, census, rec, nodes, attempt, smooth = _prepare(case)
         ops, real = _sample_nodes(case, rec, nodes, model.equation_system.num_dofs(), model, x)
+        sub = _subsystem(model, case)
+        if sub is not None and model.equation_system.num_dofs() <= 150:
+            es = model.equation_system
+            eq_arg, var_arg, rows, cols = sub
+            keep = dict(getattr(es, "assembled_equation_indices", {}))
+            A, _b = es.assemble(state=x)
+            As, _bs = es.assemble(equations=eq_arg, variables=var_arg, state=x)
+            es.assembled_equation_indices = keep
+            trip = lambda M: sorted((int(i), int(j), frac(v)) for i, j, v in zip(*(lambda c: (c.row, c.col, c.data))(M.tocoo())) if v != 0)
+            ops.append({"op": "slice", "trip": [list(t) for t in trip(A)], "rows": [int(q) for q in rows], "cols": [int(q) for q in cols],
+                        "_kind": "subsystem:" + case["subsystem"]})
+            real.append({"kind": "subsystem:" + case["subsystem"], "trip": [list(t) for t in trip(As)]})
         _IMPL_CACHE.clear()
         _IMPL_CACHE[key] = (census, ops, real, model.equation_system.num_dofs(), attempt, smooth, dict(getattr(model, "_c03_branches", {})))
     return _IMPL_CACHE[key]
@@ -799,6 +911,11 @@ def compare(impl, model, case):
     for q, (a, b) in enumerate(zip(impl["nodes"], model["nodes"])):
         if "err" in b:
             return f"node {q} ({a['kind']}): driver answered {b}"
+        if "trip" in a:
+            dcmp = deep_compare(a["trip"], sorted(b["trip"]), f"<{a['kind']}>", tol=1e-12)
+            if dcmp:
+                return f"{_cfg_str(case['config'])}: assemble(equations, variables) is not the slice the model computes: {dcmp}"
+            continue
         dcmp = deep_compare({"v": a["v"], "j": a["j"]}, {"v": b["v"], "j": b["j"]}, f"node[{q}]<{a['kind']}>", tol=1e-9)
         if dcmp:
             return f"{_cfg_str(case['config'])}: forward-mode result of a real node differs from the rule formula: {dcmp}"
@@ -811,7 +928,7 @@ def nontrivial(case):
 
 def signature(case):
     c = case["config"]
-    return (c["family"], c["fractures"], c["grid"], c.get("dim", 2), case.get("contact", "random"), case["state_seed"], case["dir_seed"], case["dir_kind"])
+    return (c["family"], c["fractures"], c["grid"], c.get("dim", 2), case.get("contact", "random"), case.get("subsystem", "none"), case["state_seed"], case["dir_seed"], case["dir_kind"])
 
 
 def shrink_candidates(case):
@@ -826,6 +943,8 @@ def shrink_candidates(case):
         yield dict(case, prev_amp=0.0)
     if case.get("check_state_arg"):
         yield dict(case, check_state_arg=False)
+    if case.get("n_dirs", 1) > 1:
+        yield dict(case, n_dirs=1)
 
 
 def stats(cases, impl_outs):
@@ -857,7 +976,13 @@ def stats(cases, impl_outs):
         for nd in (o.get("nodes", []) if isinstance(o, dict) else []):
             h = nd["kind"].split("(")[0]
             rk[h] = rk.get(h, 0) + 1
-    return {"per_model": per_model, "contact_strata": strata, "recomputed_nodes_by_kind": dict(sorted(rk.items())), "node_kinds_max_count_per_model": dict(sorted(kinds_total.items())),
+    subs = {}
+    for c in cases:
+        subs[c.get("subsystem", "none")] = subs.get(c.get("subsystem", "none"), 0) + 1
+    return {"per_model": per_model, "contact_strata": strata, "subsystem_strata": subs,
+            "amplitudes": {str(a): sum(1 for c in cases if c["amp"] == a) for a in (0.2, 0.5, 1.0)},
+            "previous_step_zero": sum(1 for c in cases if c["prev_amp"] == 0.0),
+            "directions_per_case": sorted({int(c.get("n_dirs", 1)) for c in cases}), "recomputed_nodes_by_kind": dict(sorted(rk.items())), "node_kinds_max_count_per_model": dict(sorted(kinds_total.items())),
             "directions": dk, "recomputed_nodes": sum(len(o.get("nodes", [])) for o in impl_outs if isinstance(o, dict)),
             "oracle": dict(_STATS, fd_step=H, rtol=RTOL)}
 
@@ -868,7 +993,9 @@ RULE = ("case = (model family x number of fractures x grid type x dimension, con
         "mechanics models the fracture cells are then steered (minimum-norm change of the interface displacement / contact traction) into a "
         "stratum: closed = NEGATIVE normal jump (-0.1..-0.5) with sticking (t_n -2..-4) or sliding (t_n -0.03..-0.15) traction, open = positive "
         "normal jump, mixed = per cell; states closer to a kink of maximum/abs/l2_norm/characteristic_function/heaviside/safe_power than 4x the "
-        "variation over the stencil are re-drawn; direction dense / one variable block / one dof; quick: fixed plan of 18 cases over 8 models "
+        "variation over the stencil are re-drawn; direction dense / one variable block / one dof, two directions per state; sub-system stratum "
+        "(none / equation subset requested in reverse order / variable subset / both / one equation restricted to some of its grids): "
+        "assemble(equations, variables) must be the slice of the full system; quick: fixed plan of 26 cases over 9 models "
         "(five shipped families, 0/1/2 fractures, Cartesian and simplex, one 3d momentum balance, pp.ContactMechanics, every fractured "
         "mechanics model in closed and open states, and a synthetic model applying every pp.ad.functions function); thorough: 30 family x "
         "fractures x grid combinations in 2d + five 3d models + three contact-mechanics models + two synthetic ones, strata cycled; "
@@ -892,6 +1019,8 @@ EXPLANATION = ("CORE/partial: assemble_jac_is_derivative is proved for every exp
                "(incl. arcsin/arccos/arcsinh/arccosh/arctanh, safe_power, heaviside_smooth, AdArray**AdArray, l2_norm in the code's row layout); the "
                "tree auditor finds no node outside that vocabulary; the identification of the Python trees with the abstract trees is by census + "
                "sampled re-evaluation of every occurring node kind by the Lean driver, and the property itself is checked on the real models by the "
-               "directional-derivative oracle at stratified contact states (closed/open, stick/slip), relative error observed ~1e-9.")
+               "directional-derivative oracle at stratified contact states (closed/open, stick/slip), relative error observed ~1e-9. "
+               "vocab_assemble_jac_is_derivative replaces the abstract smoothness hypothesis by explicit inequalities on node values; "
+               "newton_step_exact_linearization states the Newton clause; assemble_subsystem_jac_is_derivative covers assemble(equations=, variables=).")
 ASSUMPTIONS = ["states are sampled in the smooth region (no max/abs/norm/characteristic kink within the finite-difference stencil)",
                "discretisation matrices are constants of the residual map (no rediscretisation between evaluations)"]
